@@ -391,7 +391,7 @@ func (im *storeImpl) exec(op string) string {
 
 // ---------------------------------------------------------------- generator
 
-type genSess struct {
+type storeSessGen struct {
 	sid       string
 	lastSaved int // highest seq saved in the current epoch (0 = none)
 	s, t      int // counters as last observed
@@ -460,7 +460,7 @@ func genSid(r *rng, used map[string]bool) string {
 	}
 }
 
-func parseCtr(obs string, g *genSess) {
+func parseCtr(obs string, g *storeSessGen) {
 	w := strings.Fields(obs)
 	for i := 0; i+2 < len(w); i++ {
 		if w[i] == "c" {
@@ -472,7 +472,7 @@ func parseCtr(obs string, g *genSess) {
 }
 
 // genStoreOp emits one random store op for session g (kind-aware) and returns the op name.
-func genStoreOp(r *rng, kind string, g *genSess, o *out, do func(string) string) string {
+func genStoreOp(r *rng, kind string, g *storeSessGen, o *out, do func(string) string) string {
 	persistent := kind != "mem"
 	c := r.intn(100)
 	bigCtr := func() int {
@@ -593,9 +593,9 @@ func genStore(r *rng, tier string, idx int, o *out, do func(string) string) stri
 	}
 	nSess := 1 + r.intn(3)
 	used := map[string]bool{}
-	var gs []*genSess
+	var gs []*storeSessGen
 	for i := 0; i < nSess; i++ {
-		g := &genSess{sid: genSid(r, used), s: 1, t: 1}
+		g := &storeSessGen{sid: genSid(r, used), s: 1, t: 1}
 		gs = append(gs, g)
 	}
 	o.kind("kind." + kind)
